@@ -24,12 +24,14 @@
                                                               (B-vs-1 broadcasting and folding as Multiply)
      Max, Min along an axis                                   max_fw / max_bw (first extremal index, break):
                                                               Tensor/AdjMax.v; derivative when the extremum
-                                                              is attained once *)
+                                                              is attained once
+     LogSumExp, SoftmaxCrossEntropy, SparseSoftmaxCrossEntropy   Tensor/AdjSoftmax.v (compositions of forward
+                                                              kernels in the BACKWARD bodies) *)
 From Coq Require Import List NArith ZArith Bool Arith Lia Ring Reals RealField Lra.
 From PV Require Import Graph.OpFamily Graph.Tape Graph.Lazy Graph.Backward Graph.TapeLemmas Graph.LazyProofs
   Graph.BackwardProofs Graph.ADProof Tensor.Kernels Tensor.Index Tensor.ProofsBilinear
   Scalar.ScalarBase Gen.ScalarGen Scalar.Deriv Scalar.Pown
-  Tensor.AdjCore Tensor.AdjMatmul Tensor.GraphInst Tensor.AdjMax.
+  Tensor.AdjCore Tensor.AdjMatmul Tensor.GraphInst Tensor.AdjMax Tensor.AdjSoftmax.
 Import ListNotations.
 Local Open Scope R_scope.
 
@@ -75,7 +77,10 @@ Inductive rop :=
 | RPowN (s : tshape) (k : Z)
 | RBin (b : bop) (sa sb : tshape)
 | RMax (sx sy : tshape) (dim : nat)
-| RMin (sx sy : tshape) (dim : nat).
+| RMin (sx sy : tshape) (dim : nat)
+| RLogSumExp (sx sy : tshape) (dim : nat)
+| RSCE (sx sy : tshape) (dim : nat)
+| RSparseSCE (sx sp : tshape) (ids : list nat) (dim : nat).
 
 Notation opdescR := (@opdesc R).
 Definition describeR (o : rop) : opdescR :=
@@ -90,6 +95,9 @@ Definition describeR (o : rop) : opdescR :=
       ewy_desc 0 Rplus sa sb (b_fw b) (b_jvp b) (fun g x y z => b_bw_a b x y z g) (fun g x y z => b_bw_b b x y z g)
   | RMax sx sy dim => ext_desc rgt sx sy dim
   | RMin sx sy dim => ext_desc rlt sx sy dim
+  | RLogSumExp sx sy dim => lse_desc sx sy dim
+  | RSCE sx sy dim => sce_desc sx sy dim
+  | RSparseSCE sx sp ids dim => ssce_desc sx sp ids dim
   end.
 
 Definition real_family : OpFamily rop tshape (@OpFamily.vec R) :=
@@ -100,7 +108,7 @@ Definition real_jvp : JvpFamily (R := R) rop := desc_jvp describeR.
 
 Theorem describeR_LA (o : rop) : desc_LA 0 Rplus Rmult (describeR o).
 Proof.
-  destruct o as [c|u s|c s k|s|s|s k|b sa sb|sx sy dim|sx sy dim]; cbn [describeR].
+  destruct o as [c|u s|c s k|s|s|s k|b sa sb|sx sy dim|sx sy dim|sx sy dim|sx sy dim|sx sp ids dim]; cbn [describeR].
   - apply (describe_LA 0 1 Rplus Rmult Rminus Ropp RthR).
   - apply (uny_LA 0 1 Rplus Rmult Rminus Ropp RthR). intros x y g.
     destruct (bw_linear_unary x y g) as (H1 & H2 & H3 & H4 & H5 & H6 & H7 & H8 & H9 & H10). destruct u; assumption.
@@ -114,6 +122,9 @@ Proof.
     destruct b; cbn [b_bw_a b_bw_b b_fw] in *; [rewrite H7, H8|rewrite H9, H10]; ring.
   - apply ext_LA.
   - apply ext_LA.
+  - apply lse_LA.
+  - apply sce_LA.
+  - apply ssce_LA.
 Qed.
 
 Theorem real_LocalAdjoint (o : rop) : LocalAdjoint 0 Rplus Rmult real_family real_jvp tsize o.
